@@ -366,6 +366,36 @@ def work_decoys(chunk):
     return {"evals": len(chunk) * 3, "hist": hist, "viol": viol}
 
 
+# (f) a data directory that happens to be called std: `import "std/..."` names the embedded library, an include of
+# "std/x" is an ordinary relative path and resolves against the including file like any other
+def work_std_named_dir(chunk):
+    hist = {}
+    viol = []
+    for typ in chunk:
+        d = tempfile.mkdtemp(prefix="ucgverif-c09-")
+        try:
+            files = {"p/std/data.txt": "41", "p/std/data.json": '{"v": 41}', "p/main.ucg": "", "decoy/std/data.txt": "666", "decoy/std/data.json": '{"v": 666}'}
+            e = {"str": 'int(include str "std/data.txt")', "json": '(include json "std/data.json").v', "b64": 'select (include b64 "std/data.txt", 0) => {"NDE=" = 41}'}[typ]
+            files["p/main.ucg"] = "let r = %s;\nout json {r = r};\n" % e
+            write_project(d, files)
+            bad = None
+            for cwd in (os.path.join(d, "p"), os.path.join(d, "decoy"), "/"):
+                rc, err, val = build(d, "p/main.ucg", cwd)
+                if rc != 0:
+                    bad = "fails-from-%s" % ("project" if cwd.endswith("/p") else ("decoy-directory" if cwd.endswith("decoy") else "root"))
+                elif not isinstance(val, dict) or val.get("r") != 41:
+                    bad = "wrong-file-read-from-%s" % ("decoy-directory" if cwd.endswith("decoy") else "elsewhere")
+                if bad:
+                    break
+            k = "include-from-std-named-directory:%s" % ("agrees" if bad is None else "VIOLATION")
+            hist[k] = hist.get(k, 0) + 1
+            if bad:
+                viol.append(("std-named-directory:include-%s:%s" % (typ, bad), {"std_dir_include": typ}, {"rc": rc, "value": val, "stderr": err[-300:]}))
+        finally:
+            shutil.rmtree(d, ignore_errors=True)
+    return {"evals": len(chunk) * 3, "hist": hist, "viol": viol}
+
+
 # (e) mod.pkg(): a module's handle on the file that defines it is an import of that file. Used while
 # that file is still being evaluated it closes a cycle, which must be reported like any other.
 PKG_MODULE = "let secret = 7;\nlet m = module {} => (r) {\n    let r = mod.pkg().secret;\n};\n"
@@ -471,6 +501,8 @@ def run(ctx):
         absorb(part)
     for part in core.pmap(work_pkg, list(PKG_CASES), chunk=1):
         absorb(part)
+    for part in core.pmap(work_std_named_dir, ["str", "json", "b64"], chunk=1):
+        absorb(part)
     ctx.sample({"graph": {"n": 2, "edges": [[0, 1], [1, 0]], "spelling": "inline"}, "model": "exit 1, diagnostic mentions the cycle"})
     ctx.sample({"position": "map-callback", "source": 'let r = map(func (i) => (import "./d/lib.ucg").v + i, [0]).0;', "cwds": ["p", "p/d", "/"]})
     seen = {}
@@ -490,6 +522,8 @@ def replay(case):
     elif "position" in c:
         tpl = dict(POSITIONS)[c["position"]]
         part = work_positions([(c["position"], tpl, c["kind"], c["spelling"])])
+    elif "std_dir_include" in c:
+        part = work_std_named_dir([c["std_dir_include"]])
     elif "pkg_case" in c:
         part = work_pkg([c["pkg_case"]])
     elif "decoy_layout" in c:
